@@ -9,6 +9,7 @@ import (
 	"errors"
 	"fmt"
 	"os"
+	"strings"
 	"sync"
 	"sync/atomic"
 	"time"
@@ -391,10 +392,17 @@ func (r *SignerRig) openRules() error {
 	// after every explicit close so that the service's watcher goroutine does not pin the closed database in memory.
 	var rctx context.Context
 	rctx, r.rulesCancel = context.WithCancel(context.Background())
-	r.Rules, err = standardrules.New(rctx, standardrules.WithStoragePath(r.Dir), standardrules.WithAdminIPs(r.opts.AdminIPs))
+	rs, err := standardrules.New(rctx, standardrules.WithStoragePath(r.Dir), standardrules.WithAdminIPs(r.opts.AdminIPs))
+	for attempt := 0; err != nil && strings.Contains(err.Error(), "Cannot acquire directory lock") && attempt < 20; attempt++ {
+		// See rig.CLI: a forked child of another goroutine may hold the lock file's descriptor until it execs.
+		time.Sleep(time.Duration(20*(attempt+1)) * time.Millisecond)
+		rs, err = standardrules.New(rctx, standardrules.WithStoragePath(r.Dir), standardrules.WithAdminIPs(r.opts.AdminIPs))
+	}
 	if err != nil {
+		r.rulesCancel()
 		return err
 	}
+	r.Rules = rs
 	r.RulesI = r.Rules
 	if r.opts.Wrap.Rules != nil {
 		r.RulesI = r.opts.Wrap.Rules(r.RulesI)
@@ -496,7 +504,11 @@ func (r *SignerRig) Restart() error {
 
 // StopStore closes the slashing-protection store (e.g. to let the CLI use the directory).
 func (r *SignerRig) StopStore() error {
+	if r.Rules == nil {
+		return nil
+	}
 	err := r.Rules.Close(r.Ctx)
+	r.Rules = nil
 	if r.rulesCancel != nil {
 		r.rulesCancel()
 	}
